@@ -11,7 +11,7 @@ def run(ctx):
                        "1-3 cycles; C03 judged at cycle end in histories without API write failures; non-trivial = a decision was taken")
     ctx.assumptions += ["one pod set per job in the generated scenarios (hierarchical sub-groups are covered by the repository fixtures stage when present)"]
     n = 600 if ctx.quick else 10000
-    st_cluster.run_stage(ctx, PREFIXES, [("mixed", n // 3), ("full", n // 6), ("closed", n // 8), ("fraction", n // 8), ("elastic", n // 5), ("nested", n // 8), ("elasticnom", n // 8)])
+    st_cluster.run_stage(ctx, PREFIXES, [("mixed", n // 3), ("full", n // 6), ("closed", n // 8), ("fraction", n // 8), ("elastic", n // 5), ("nested", n // 8), ("elasticnom", n // 8), ("foreign", n // 6), ("frag", n // 8)])
     st_fixtures.run_stage(ctx, PREFIXES)
 
 
